@@ -50,7 +50,13 @@ class Static(BaseComponent):
 
     @handler('request', priority=0.9)
     def _on_request(self, event, request, response):
-        if self.path is not None and not request.path.startswith(self.path):
+        # (the mount point itself or something below it: "/pub" is no prefix
+        # of "/public/key.txt")
+        if (
+            self.path is not None
+            and request.path != self.path
+            and not request.path.startswith(self.path.rstrip('/') + '/')
+        ):
             return None
 
         path = request.path
